@@ -141,6 +141,19 @@ public:
 private:
 	int mId;
 };
+// an EMPTY (stateless) manager: all instances are equal, id 0; momo keeps such a manager (and the container traits) INSIDE the container
+// object instead of in a heap-allocated crew when iterator versions are not kept (SetCrew<..., false> with tUsePtr == false)
+class MM0
+{
+public:
+	explicit MM0() noexcept {}
+	MM0(MM0&&) noexcept {}
+	MM0(const MM0&) noexcept {}
+	~MM0() noexcept {}
+	MM0& operator=(const MM0&) = delete;
+	void* Allocate(size_t size) { return raw_allocate(0, size); }
+	void Deallocate(void* ptr, size_t size) noexcept { raw_deallocate(0, ptr, size); }
+};
 // with Reallocate (moves the block: exercises momo's realloc paths for trivially relocatable items)
 class MMR : public MM
 {
